@@ -419,13 +419,16 @@ fn basic_pieces(pattern: &str, regex_type: RegexType) -> Vec<BasicPiece<'_>> {
     let newline_alt = matches!(regex_type, RegexType::Grep);
     let mut pieces = Vec::new();
     let mut start = true;
+    // (only the first "^" there is the anchor: a second one is a character)
+    let mut anchored = false;
     let mut rest = pattern;
     while let Some(ch) = rest.chars().next() {
         let quoted = rest[ch.len_utf8()..].chars().next().filter(|_| ch == '\\');
+        let anchor = ch == '^' && start && !anchored;
         let (len, opens, repeats) = match (ch, quoted) {
             ('\\', Some('(' | '|')) => (2, true, false),
             ('\n', _) if newline_alt => (1, true, false),
-            ('^', _) if start => (1, true, false),
+            ('^', _) if anchor => (1, true, false),
             ('*', _) => (1, false, true),
             ('\\', Some('+' | '?')) => (2, false, true),
             ('\\', Some('{')) if start => (2, false, true),
@@ -446,6 +449,7 @@ fn basic_pieces(pattern: &str, regex_type: RegexType) -> Vec<BasicPiece<'_>> {
             BasicPiece::Other(text)
         });
         start = opens;
+        anchored = anchor;
         rest = &rest[len..];
     }
     pieces
